@@ -153,7 +153,7 @@ def make_case(args):
     for pos in positions[:3]:
         sub = da.isel(pos)
         E2 = np.asarray(sub.transpose("freq", "dir").values if not oned else sub.values[:, None], dtype=float)
-        ddv = abs(float(dirs[1] - dirs[0])) if (dirs is not None and len(dirs) > 1) else 1.0
+        ddv = gen.bin_width(dirs)
         S = (ddv * E2.sum(axis=1)) if not oned else E2[:, 0]
         # harness-side peak (brute force definition) to build the exp tables of alpha
         bp = brute_peak([fr(x) for x in (E2.sum(axis=1) if not oned else E2[:, 0])])
